@@ -2,6 +2,7 @@
 FILE *v_fopen(const char *, const char *);
 int v_fclose(FILE *);
 int v_fflush(FILE *);
+int v_setvbuf(FILE *, char *, int, size_t);
 int v_vfprintf(FILE *, const char *, va_list);
 int v_fprintf(FILE *, const char *, ...);
 int v_printf(const char *, ...);
@@ -27,6 +28,7 @@ int v_access(const char *, int);
 #define fopen(...)    v_fopen(__VA_ARGS__)
 #define fclose(...)   v_fclose(__VA_ARGS__)
 #define fflush(...)   v_fflush(__VA_ARGS__)
+#define setvbuf(...)  v_setvbuf(__VA_ARGS__)
 #define vfprintf(...) v_vfprintf(__VA_ARGS__)
 #define fprintf(...)  v_fprintf(__VA_ARGS__)
 #define printf(...)   v_printf(__VA_ARGS__)
